@@ -151,6 +151,14 @@ def run(ctx):
         if 'late' in case['behaviours'] and not res['late_waits']:
             ctx.count('late_not_produced')
         ctx.count('worker_processes_seen', len(res['pids']))
+        if res.get('calib_s', 0) > 1.0 or any(r['status'] == 'EqualizerFailure' and 'timeout' in (r['message'] or '') and b in H.NONFATAL
+                                               for b, r in zip(case['behaviours'], res['results'])):
+            # the machine was overloaded while this case ran (a 0.3 s sleep took > 1 s, or a healthy replay ran into the 1 s timeout):
+            # the case is run again, alone; only that second run is judged
+            ctx.count('overloaded_reruns')
+            res2, status2 = H.run_one(case)
+            if status2 == 'ok':
+                res = res2
         v = judge(ctx, case, res, w)
         if v is not None and case.get('pair'):
             pairs.setdefault(case['pair'], []).append((case['dedicated'], v))
